@@ -290,7 +290,7 @@ static unsigned long item__get_group(int d) { return get_group_id(2 - d); }
 static unsigned long item__get_local_id(int d) { return get_local_id(2 - d); }
 #define VERIF_SHARED static
 #define VERIF_ATOMIC_MARK ((void)0)
-int launch_overflow;
+int launch_overflow, launch_negative;
 '''
 
 
@@ -305,6 +305,7 @@ def launch_fn(kname, params, mode, cap):
     return '''
 static void LAUNCH_%(k)s(%(decl)s) {
   for (int d = 0; d < 3; d++) if (outer[d] == 0 || inner[d] == 0) return;       /* empty grid: nothing runs */
+  for (int d = 0; d < 3; d++) if ((long) outer[d] < 0 || (long) inner[d] < 0) { launch_negative = 1; }      /* a negative count stored into the unsigned occa::dim */
   for (int d = 0; d < 3; d++) if (outer[d] > %(cap)d || inner[d] > %(cap)d) { launch_overflow = 1; return; }
   gridDim.x = outer[0]; gridDim.y = outer[1]; gridDim.z = outer[2]; blockDim.x = inner[0]; blockDim.y = inner[1]; blockDim.z = inner[2];
   for (unsigned bz = 0; bz < outer[2]; bz++) for (unsigned by = 0; by < outer[1]; by++) for (unsigned bx = 0; bx < outer[0]; bx++)
@@ -370,6 +371,9 @@ class Prog:
         self.cap = cap              # bound on each launch dimension
         self.arrays = arrays or []  # [(ctype, name, size, 'in'|'out'|'inout')] for array-mode harnesses
         self.unwind = unwind
+        self.excl_post = {}         # known-finding key -> C predicate over harness state after both runs
+        self.mid_assumes = []       # assumptions over the reference run's result (placed before the translated code runs)
+        self.post_assumes = []
 
 
 VISIT = r'''
@@ -415,7 +419,14 @@ def visit_harness(prog, mode, tr_text, active_excl=()):
         if k in prog.excl:
             m.append('  VASSUME(!(%s));   /* known finding %s excluded */' % (prog.excl[k], k))
     m.append('  which = 0; ref_%s(%s);' % (prog.kernel, ', '.join(call)))
+    for s in prog.mid_assumes:
+        m.append('  VASSUME(%s);' % s)
     m.append('  which = 1; tr_%s(%s);' % (prog.kernel, ', '.join(call)))
+    for k in active_excl:
+        if k in prog.excl_post:
+            m.append('  VASSUME(!(%s));   /* known finding %s excluded */' % (prog.excl_post[k], k))
+    for s in prog.post_assumes:
+        m.append('  VASSUME(%s);' % s)
     m.append('  OUT(n_ref, nvis[0]); OUT(n_tr, nvis[1]); OUT(w_ref, nwatch[0]); OUT(w_tr, nwatch[1]);')
     m.append('  VASSERT(!launch_overflow, "a launch dimension exceeds the bound although the sequential trip counts are within it");')
     m.append('  VASSERT(nvis[0] == nvis[1], "number of executed iterations equals the sequential trip count");')
@@ -447,7 +458,7 @@ def make_queries(ctx, progs, modes, harness_fn, known_keys=(), timeout=120, jobs
             return ('rejected', prog, mode, info)
         res = []
         variants = [((), 'pass')]
-        act = [k for k in known_keys if k in prog.excl]
+        act = [k for k in known_keys if k in prog.excl or k in prog.excl_post]
         if act:
             variants = [(tuple(act), 'pass')]
         for excl, expect in variants:
@@ -472,12 +483,14 @@ def make_queries(ctx, progs, modes, harness_fn, known_keys=(), timeout=120, jobs
 
 
 def prog_to_meta(p):
-    return {k: getattr(p, k) for k in ('name', 'okl', 'kernel', 'args', 'refcap', 'desc', 'assumes', 'excl', 'ref', 'cap', 'arrays', 'unwind')}
+    return {k: getattr(p, k) for k in ('name', 'okl', 'kernel', 'args', 'refcap', 'desc', 'assumes', 'excl', 'ref', 'cap', 'arrays', 'unwind', 'excl_post', 'mid_assumes', 'post_assumes')}
 
 
 def prog_from_meta(m):
-    return Prog(m['name'], m['okl'], m['kernel'], [tuple(a) for a in m['args']], m['refcap'], m.get('desc', ''), m.get('assumes', ()), m.get('excl'), m.get('ref'),
-                m.get('cap', 6), [tuple(a) for a in (m.get('arrays') or [])], m.get('unwind'))
+    p = Prog(m['name'], m['okl'], m['kernel'], [tuple(a) for a in m['args']], m['refcap'], m.get('desc', ''), m.get('assumes', ()), m.get('excl'), m.get('ref'),
+             m.get('cap', 6), [tuple(a) for a in (m.get('arrays') or [])], m.get('unwind'))
+    p.excl_post = m.get('excl_post') or {}; p.mid_assumes = m.get('mid_assumes') or []; p.post_assumes = m.get('post_assumes') or []
+    return p
 
 
 def replay_query(ctx, meta, pid):
